@@ -1654,6 +1654,845 @@ Proof.
 Qed.
 
 (* ====================================================================== *)
+(* N. the masked memcmp of locateBoundaryBuckets, at the bit level         *)
+(* ====================================================================== *)
+Lemma bits_of8_inj x y : x < 256 -> y < 256 -> bits_of 8 x = bits_of 8 y -> x = y.
+Proof.
+  intros Hx Hy E. apply N.compare_eq_iff.
+  rewrite (compare_bits_of 8 x y Hx Hy), E. apply bits_cmp_refl.
+Qed.
+
+Lemma bits_cmp_decided m : forall x y,
+  bits_cmp (m ++ false :: x) (m ++ true :: y) = Lt /\ bits_cmp (m ++ true :: x) (m ++ false :: y) = Gt.
+Proof.
+  induction m as [|b m IH]; intros x y; cbn [app bits_cmp]; [auto|].
+  rewrite Bool.eqb_reflx. apply IH.
+Qed.
+
+Lemma app_split_len {A} (a1 a2 b1 b2 : list A) : a1 ++ a2 = b1 ++ b2 -> length a1 = length b1 -> a1 = b1 /\ a2 = b2.
+Proof.
+  revert b1. induction a1 as [|x a1 IH]; intros [|y b1] E L; cbn in *; try discriminate; [auto|].
+  inversion E; subst. destruct (IH b1 H1 ltac:(lia)) as [-> ->]. auto.
+Qed.
+
+(* a byte string whose bits continue m with [bx] against one whose bits continue m with the other bit *)
+Lemma memcmp_avail_bits_decided : forall a b m bx x y,
+  Forall (fun v => v < 256) a -> Forall (fun v => v < 256) b ->
+  bits_of_bytes a = m ++ bx :: x -> bits_of_bytes b = m ++ negb bx :: y ->
+  memcmp_avail a b = Some (if bx then Gt else Lt).
+Proof.
+  induction a as [|u a IH]; intros b m bx x y Fa Fb Ea Eb.
+  - destruct m; discriminate.
+  - destruct b as [|v b]; [destruct m; discriminate|].
+    inversion Fa as [|? ? Hu Fa']; subst. inversion Fb as [|? ? Hv Fb']; subst.
+    rewrite bits_of_bytes_cons in Ea, Eb. cbn [memcmp_avail].
+    destruct (Nat.le_gt_cases 8 (length m)) as [Hm|Hm].
+    + (* the first bytes agree *)
+      rewrite <- (firstn_skipn 8 m) in Ea, Eb. rewrite <- app_assoc in Ea, Eb.
+      destruct (app_split_len _ _ _ _ Ea) as [E1 E2]; [rewrite bits_of_length, firstn_length; lia|].
+      destruct (app_split_len _ _ _ _ Eb) as [E3 E4]; [rewrite bits_of_length, firstn_length; lia|].
+      assert (u = v) by (apply bits_of8_inj; auto; congruence). subst v.
+      rewrite N.compare_refl. apply (IH b (skipn 8 m) bx x y Fa' Fb' E2 E4).
+    + (* the difference is inside the first bytes *)
+      assert (Eu : exists x1, bits_of 8 u = m ++ bx :: x1).
+      { destruct (app_eq_app _ _ _ _ Ea) as [w [[E1 E2]|[E1 E2]]].
+        - destruct w as [|b0 w]; [apply (f_equal (@length bool)) in E1; rewrite bits_of_length, app_length in E1; cbn in E1; lia|].
+          cbn [app] in E2. inversion E2; subst. exists w. exact E1.
+        - apply (f_equal (@length bool)) in E1. rewrite app_length, bits_of_length in E1. lia. }
+      assert (Ev : exists y1, bits_of 8 v = m ++ negb bx :: y1).
+      { destruct (app_eq_app _ _ _ _ Eb) as [w [[E1 E2]|[E1 E2]]].
+        - destruct w as [|b0 w]; [apply (f_equal (@length bool)) in E1; rewrite bits_of_length, app_length in E1; cbn in E1; lia|].
+          cbn [app] in E2. inversion E2; subst. exists w. exact E1.
+        - apply (f_equal (@length bool)) in E1. rewrite app_length, bits_of_length in E1. lia. }
+      destruct Eu as [x1 Eu]. destruct Ev as [y1 Ev].
+      rewrite (compare_bits_of 8 u v Hu Hv), Eu, Ev.
+      destruct bx; cbn [negb].
+      * rewrite (proj2 (bits_cmp_decided m x1 y1)). reflexivity.
+      * rewrite (proj1 (bits_cmp_decided m x1 y1)). reflexivity.
+Qed.
+
+Lemma memcmp_avail_bits_eq : forall a b, Forall (fun v => v < 256) a -> Forall (fun v => v < 256) b ->
+  length a = length b -> bits_of_bytes a = bits_of_bytes b -> memcmp_avail a b = Some Eq.
+Proof.
+  induction a as [|u a IH]; intros [|v b] Fa Fb L E; try discriminate; [reflexivity|].
+  inversion Fa as [|? ? Hu Fa']; subst. inversion Fb as [|? ? Hv Fb']; subst.
+  rewrite !bits_of_bytes_cons in E. destruct (app_split_len _ _ _ _ E) as [E1 E2]; [rewrite !bits_of_length; reflexivity|].
+  assert (u = v) by (apply bits_of8_inj; auto). subst v. cbn [memcmp_avail]. rewrite N.compare_refl.
+  apply IH; auto.
+Qed.
+
+Lemma memcmp_avail_nil a : memcmp_avail a [] = Some Eq.
+Proof. destruct a; reflexivity. Qed.
+
+Lemma memcmp_avail_app_l : forall b a r, (length b <= length a)%nat -> memcmp_avail (a ++ r) b = memcmp_avail a b.
+Proof.
+  induction b as [|y b IH]; intros a r L; [rewrite !memcmp_avail_nil; reflexivity|].
+  destruct a as [|x a]; [cbn in L; lia|]. cbn [app memcmp_avail]. destruct (x ?= y); try reflexivity.
+  apply IH. cbn in L. lia.
+Qed.
+
+(* ---- masking the last byte *)
+Lemma land_cmask_bits o x : 1 <= o <= 7 ->
+  bits_of 8 (N.land x (cmask o)) = firstn (N.to_nat o) (bits_of 8 x) ++ repeat false (8 - N.to_nat o).
+Proof.
+  intros Ho.
+  assert (C : o = 1 \/ o = 2 \/ o = 3 \/ o = 4 \/ o = 5 \/ o = 6 \/ o = 7) by lia.
+  destruct C as [->|[->|[->|[->|[->|[->| ->]]]]]]; cbn [bits_of N.to_nat Pos.to_nat Pos.iter_op Nat.add firstn repeat Nat.sub app N.of_nat];
+    rewrite !N.land_spec; vm_compute (cmask _);
+    repeat match goal with |- context [N.testbit (N.pos ?p) ?k] => let v := eval vm_compute in (N.testbit (N.pos p) k) in change (N.testbit (N.pos p) k) with v end;
+    rewrite ?andb_true_r, ?andb_false_r; reflexivity.
+Qed.
+
+Lemma mask_last_spec : forall (l : list N) n m,
+  mask_last l n m = match nth_error l n with
+                    | Some x => firstn n l ++ N.land x m :: skipn (S n) l
+                    | None => l
+                    end.
+Proof.
+  induction l as [|x l IH]; intros [|n] m; cbn [mask_last nth_error firstn skipn app]; try reflexivity.
+  rewrite IH. destruct (nth_error l n); reflexivity.
+Qed.
+
+Lemma firstn_bits_of_bytes k l : firstn (8 * k) (bits_of_bytes l) = bits_of_bytes (firstn k l).
+Proof.
+  revert l. induction k as [|k IH]; intros l; [reflexivity|].
+  destruct l as [|x l]; [reflexivity|]. rewrite bits_of_bytes_cons. cbn [firstn].
+  rewrite bits_of_bytes_cons. replace (8 * S k)%nat with (length (bits_of 8 x) + 8 * k)%nat by (rewrite bits_of_length; lia).
+  rewrite firstn_app_2, IH. reflexivity.
+Qed.
+
+(* the bits of the masked copy: the first L bits of the text, zero padded to the byte *)
+Lemma masked_header_bits hb n o : Forall (fun v => v < 256) hb -> (1 <= n)%nat -> (n <= length hb)%nat -> o <= 7 ->
+  let L := if o =? 0 then (8 * n)%nat else (8 * (n - 1) + N.to_nat o)%nat in
+  bits_of_bytes (if negb (o =? 0) then mask_last (firstn n hb) (n - 1) (cmask o) else firstn n hb) =
+  firstn L (bits_of_bytes hb) ++ repeat false (8 * n - L).
+Proof.
+  intros F Hn Hl Ho L. unfold L. destruct (N.eqb_spec o 0) as [->|Ho0]; cbn [negb].
+  - rewrite firstn_bits_of_bytes, Nat.sub_diag. cbn [repeat]. rewrite app_nil_r. reflexivity.
+  - rewrite mask_last_spec.
+    assert (Hnth : exists x, nth_error (firstn n hb) (n - 1) = Some x /\ nth_error hb (n - 1) = Some x).
+    { destruct (nth_error hb (n - 1)) as [x|] eqn:E; [|apply nth_error_None in E; lia].
+      exists x. split; [|reflexivity]. rewrite <- (firstn_skipn n hb) in E.
+      rewrite nth_error_app1 in E by (rewrite firstn_length; lia). exact E. }
+    destruct Hnth as (x & E1 & E2). rewrite E1.
+    rewrite firstn_firstn. replace (Nat.min (n - 1) n) with (n - 1)%nat by lia.
+    replace (skipn (S (n - 1)) (firstn n hb)) with (@nil N).
+    2:{ symmetry. apply skipn_all2. rewrite firstn_length. lia. }
+    rewrite bits_of_bytes_app, bits_of_bytes_cons. cbn [bits_of_bytes flat_map]. rewrite app_nil_r.
+    rewrite land_cmask_bits by lia.
+    (* the text: pre ++ x :: post *)
+    assert (Ehb : hb = firstn (n - 1) hb ++ x :: skipn (S (n - 1)) hb).
+    { rewrite <- (firstn_skipn (n - 1) hb) at 1. f_equal. apply skipn_nth_error_cons. exact E2. }
+    assert (Lp : length (bits_of_bytes (firstn (n - 1) hb)) = (8 * (n - 1))%nat).
+    { rewrite bits_of_bytes_length, firstn_length. lia. }
+    set (pre := firstn (n - 1) hb) in *. set (post := skipn (S (n - 1)) hb) in *.
+    rewrite Ehb. rewrite bits_of_bytes_app, bits_of_bytes_cons.
+    rewrite firstn_app, Lp. replace (8 * (n - 1) + N.to_nat o - 8 * (n - 1))%nat with (N.to_nat o) by lia.
+    rewrite (firstn_all2 (n := (8 * (n - 1) + N.to_nat o)%nat) (bits_of_bytes pre)) by lia. rewrite firstn_app, bits_of_length.
+    replace (N.to_nat o - 8)%nat with 0%nat by lia. cbn [firstn]. rewrite app_nil_r.
+    rewrite <- app_assoc. do 2 f_equal. f_equal. lia.
+Qed.
+
+(* the encoding of h followed by its NUL against the encoding of a pattern p (no NUL) that is not a prefix of
+   h: the first differing bit lies inside both, in the direction of the string order *)
+Lemma enc_prefix_diff cws :
+  prefix_free (table_codes cws) -> alphabetic (table_codes cws) ->
+  forall h p eh ep, Forall (fun b => b <> 0) h -> Forall (fun b => b <> 0) p -> Spec.is_prefix p h = false ->
+  encode_bits cws (h ++ [0]) = Some eh -> encode_bits cws p = Some ep ->
+  exists m x y,
+    (lex_compare h p = Lt /\ eh = m ++ false :: x /\ ep = m ++ true :: y) \/
+    (lex_compare h p = Gt /\ eh = m ++ true :: x /\ ep = m ++ false :: y).
+Proof.
+  intros PF AL. induction h as [|a h IH]; intros p eh ep Fh Fp Hnp Hs Ht.
+  - destruct p as [|b q]; [discriminate|]. inversion Fp as [|? ? Hb _]; subst.
+    cbn [app] in Hs.
+    apply encode_bits_cons_inv in Hs. destruct Hs as [c0 [e0 [H0 [_ ->]]]].
+    apply encode_bits_cons_inv in Ht. destruct Ht as [cb [eb [Hcb [_ ->]]]].
+    destruct (nul_code_least cws b c0 cb PF AL Hb H0 Hcb) as [m [x [y [-> ->]]]].
+    exists m, (x ++ e0), (y ++ eb). left. rewrite <- !app_assoc. cbn [app]. auto.
+  - inversion Fh as [|? ? Ha Fh']; subst.
+    destruct p as [|b q]; [discriminate|].
+    inversion Fp as [|? ? Hb Fq']; subst.
+    rewrite <- app_comm_cons in Hs.
+    apply encode_bits_cons_inv in Hs. destruct Hs as [ca [ea [Hca [Hea ->]]]].
+    apply encode_bits_cons_inv in Ht. destruct Ht as [cb [eb [Hcb [Heb ->]]]].
+    cbn [lex_compare]. cbn [Spec.is_prefix] in Hnp. destruct (N.compare_spec a b) as [E|L|G].
+    + subst b. rewrite N.eqb_refl in Hnp. cbn [andb] in Hnp. rewrite Hca in Hcb. injection Hcb as <-.
+      destruct (IH q ea eb Fh' Fq' Hnp Hea Heb) as [m [x [y [[Hc [-> ->]]|[Hc [-> ->]]]]]].
+      * exists (cw_bits ca ++ m), x, y. left. rewrite <- !app_assoc. auto.
+      * exists (cw_bits ca ++ m), x, y. right. rewrite <- !app_assoc. auto.
+    + destruct (codes_decided cws a b ca cb PF AL L Hca Hcb) as [m [x [y [-> ->]]]].
+      exists m, (x ++ ea), (y ++ eb). left. rewrite <- !app_assoc. cbn [app]. auto.
+    + destruct (codes_decided cws b a cb ca PF AL G Hcb Hca) as [m [x [y [-> ->]]]].
+      exists m, (y ++ ea), (x ++ eb). right. rewrite <- !app_assoc. cbn [app]. auto.
+Qed.
+
+Lemma length_firstn_le {A} n (l : list A) : (length (firstn n l) <= n)%nat.
+Proof. rewrite firstn_length. lia. Qed.
+
+Lemma Forall_firstn {A} (P : A -> Prop) : forall n l, Forall P l -> Forall P (firstn n l).
+Proof.
+  induction n as [|n IH]; intros l H; [constructor|]. destruct l as [|x l]; [constructor|].
+  inversion H; subst. cbn [firstn]. constructor; [assumption|apply IH; assumption].
+Qed.
+
+Lemma land_lt256 x m : x < 256 -> N.land x m < 256.
+Proof.
+  intros Hx. change 256 with (2 ^ 8) in *. apply lt_pow2_of_bits. intros k Hk.
+  rewrite N.land_spec, (testbit_lt_pow2_false x k 8 Hx Hk). reflexivity.
+Qed.
+
+Lemma mask_last_bytes : forall l n m, Forall (fun v => v < 256) l -> Forall (fun v => v < 256) (mask_last l n m).
+Proof.
+  induction l as [|x l IH]; intros [|n] m F; cbn [mask_last]; auto.
+  - inversion F; subst. constructor; [apply land_lt256; assumption|assumption].
+  - inversion F; subst. constructor; [assumption|]. apply IH; assumption.
+Qed.
+
+Lemma encode_bits_nil_inv cws p : lengths_ok cws -> encode_bits cws p = Some [] -> p = [].
+Proof.
+  intros LO E. destruct p as [|x p]; [reflexivity|exfalso].
+  apply encode_bits_cons_inv in E. destruct E as (c & e & Hc & _ & E).
+  unfold lengths_ok in LO. rewrite Forall_forall in LO.
+  assert (Hb : 1 <= snd c <= 32 /\ fst c < 2 ^ snd c) by (apply LO; eapply nth_error_In; exact Hc).
+  apply (f_equal (@length bool)) in E. rewrite app_length, cw_bits_length in E. cbn [length] in E. lia.
+Qed.
+
+Lemma firstn_app_decided {A} (m : list A) bx X L : (length m < L)%nat ->
+  firstn L (m ++ bx :: X) = m ++ bx :: firstn (L - length m - 1) X.
+Proof.
+  intros H. rewrite firstn_app. rewrite firstn_all2 by lia. f_equal.
+  destruct (L - length m)%nat as [|k] eqn:E; [lia|]. cbn [firstn]. f_equal. f_equal. lia.
+Qed.
+
+(* the comparison of locateBoundaryBuckets against a header = the prefix classification of the header string *)
+Lemma masked_memcmp_pcls cws h p bh oh enc o rest :
+  check_prefix_free cws = true -> check_alphabetic cws = true -> check_lengths cws = true ->
+  Forall (fun b => b <> 0) h -> Forall (fun b => b <> 0) p ->
+  pack_string cws (h ++ [0]) = Some (bh, oh) -> pack_string cws p = Some (enc, o) ->
+  Forall (fun x => x < 256) rest ->
+  memcmp_avail (if negb (o =? 0) && negb (lenN enc =? 0)
+                then mask_last (firstn (length enc) (bh ++ rest)) (length enc - 1) (cmask o)
+                else firstn (length enc) (bh ++ rest)) enc
+  = Some (pcls p h).
+Proof.
+  intros CP CA CL Fh Fp Ph Pp Fr.
+  pose proof (check_prefix_free_sound _ CP) as PF.
+  pose proof (check_alphabetic_sound _ CA) as AL.
+  pose proof (check_lengths_sound _ CL) as LO.
+  destruct (pack_string_bits cws _ bh oh LO Ph) as (eh & Eeh & Bh & _).
+  destruct (pack_string_bits cws _ enc o LO Pp) as (ep & Eep & Bp & Eo).
+  pose proof (pack_string_bytes _ _ _ _ Ph) as Fbh. pose proof (pack_string_bytes _ _ _ _ Pp) as Fenc.
+  assert (Fhb : Forall (fun x => x < 256) (bh ++ rest)) by (apply Forall_app; split; assumption).
+  set (hb := bh ++ rest) in *. set (n := length enc) in *.
+  assert (Ho : o < 8) by (rewrite Eo; apply N.mod_lt; lia).
+  assert (Hlen : (8 * n = length ep + N.to_nat ((8 - o) mod 8))%nat).
+  { apply (f_equal (@length bool)) in Bp. rewrite bits_of_bytes_length, app_length, repeat_length in Bp. exact Bp. }
+  destruct (Nat.eq_dec n 0) as [Hn0|Hn0].
+  - (* the empty pattern *)
+    assert (enc = []) by (destruct enc; [reflexivity|cbn in n; lia]). subst enc.
+    rewrite memcmp_avail_nil. f_equal. symmetry. apply pcls_Eq.
+    assert (ep = []) by (destruct ep; [reflexivity|cbn [length] in Hlen; lia]). subst ep.
+    rewrite (encode_bits_nil_inv cws p LO Eep). reflexivity.
+  - assert (Hlenc : lenN enc =? 0 = false) by (apply N.eqb_neq; unfold lenN; fold n; lia).
+    rewrite Hlenc. cbn [negb]. rewrite andb_true_r.
+    set (L := if o =? 0 then (8 * n)%nat else (8 * (n - 1) + N.to_nat o)%nat).
+    assert (HL : L = length ep).
+    { unfold L. destruct (N.eqb_spec o 0) as [->|Ho0].
+      - change ((8 - 0) mod 8) with 0 in Hlen. cbn in Hlen. lia.
+      - rewrite (N.mod_small (8 - o) 8) in Hlen by lia. lia. }
+    assert (Hpad : (8 * n - L)%nat = N.to_nat ((8 - o) mod 8)) by lia.
+    assert (Hbhl : (8 * length bh = length eh + N.to_nat ((8 - oh) mod 8))%nat).
+    { apply (f_equal (@length bool)) in Bh. rewrite bits_of_bytes_length, app_length, repeat_length in Bh. exact Bh. }
+    assert (Bhb : bits_of_bytes hb = eh ++ (repeat false (N.to_nat ((8 - oh) mod 8)) ++ bits_of_bytes rest)).
+    { unfold hb. rewrite bits_of_bytes_app, Bh, <- app_assoc. reflexivity. }
+    destruct (Spec.is_prefix p h) eqn:Epre.
+    + (* p is a prefix of h: the first L bits of the header are the bits of p *)
+      assert (Ecl : pcls p h = Eq) by (apply pcls_Eq; exact Epre). rewrite Ecl.
+      apply is_prefix_app in Epre. destruct Epre as [r Er]. subst h.
+      rewrite <- app_assoc in Eeh. apply encode_with_app_inv in Eeh.
+      destruct Eeh as (ep' & er & E1 & E2 & E3). unfold encode_bits in Eep. rewrite Eep in E1. inversion E1; subst ep'. clear E1.
+      assert (Hn : (n <= length hb)%nat).
+      { unfold hb. rewrite app_length. rewrite E3, app_length in Hbhl. lia. }
+      pose proof (masked_header_bits hb n o Fhb ltac:(lia) Hn ltac:(lia)) as Hm. cbn zeta in Hm. fold L in Hm.
+      apply memcmp_avail_bits_eq.
+      * destruct (negb (o =? 0)); [apply mask_last_bytes|]; apply Forall_firstn; exact Fhb.
+      * exact Fenc.
+      * destruct (negb (o =? 0)).
+        -- rewrite mask_last_spec. destruct (nth_error (firstn n hb) (n - 1)) eqn:En.
+           ++ rewrite app_length. cbn [length]. rewrite firstn_length, skipn_length, firstn_length. fold n. lia.
+           ++ rewrite firstn_length. fold n. lia.
+        -- rewrite firstn_length. fold n. lia.
+      * rewrite Hm, Bp, Hpad. f_equal. rewrite Bhb, E3, <- app_assoc, HL.
+        rewrite firstn_app, Nat.sub_diag, firstn_all. cbn [firstn]. rewrite app_nil_r. reflexivity.
+    + (* p is not a prefix of h: the first differing bit *)
+      assert (Ecl : pcls p h = lex_compare h p) by (unfold pcls; rewrite Epre; reflexivity). rewrite Ecl.
+      destruct (enc_prefix_diff cws PF AL h p eh ep Fh Fp Epre Eeh Eep) as (m & x & y & Hcase).
+      assert (Hd : exists bx : bool, lex_compare h p = (if bx then Gt else Lt) /\ eh = m ++ bx :: x /\ ep = m ++ negb bx :: y).
+      { destruct Hcase as [(H1 & H2 & H3)|(H1 & H2 & H3)]; [exists false|exists true]; cbn [negb]; auto. }
+      destruct Hd as (bx & Hc & Heh & Hep). rewrite Hc.
+      assert (HmL : (length m < L)%nat) by (rewrite HL, Hep, app_length; cbn [length]; lia).
+      assert (Benc : bits_of_bytes enc = m ++ negb bx :: (y ++ repeat false (N.to_nat ((8 - o) mod 8)))).
+      { rewrite Bp, Hep, <- app_assoc. reflexivity. }
+      assert (Bhb2 : bits_of_bytes hb = m ++ bx :: (x ++ repeat false (N.to_nat ((8 - oh) mod 8)) ++ bits_of_bytes rest)).
+      { rewrite Bhb, Heh, <- app_assoc. reflexivity. }
+      destruct (Nat.le_gt_cases n (length hb)) as [Hn|Hn].
+      * pose proof (masked_header_bits hb n o Fhb ltac:(lia) Hn ltac:(lia)) as Hm. cbn zeta in Hm. fold L in Hm.
+        rewrite Bhb2, (firstn_app_decided m bx _ L HmL), <- app_assoc in Hm. cbn [app] in Hm.
+        eapply memcmp_avail_bits_decided; [| exact Fenc | exact Hm | exact Benc].
+        destruct (negb (o =? 0)); [apply mask_last_bytes|]; apply Forall_firstn; exact Fhb.
+      * (* fewer bytes than the pattern needs remain: the copy is the rest of the text, unmasked *)
+        assert (Efn : firstn n hb = hb) by (apply firstn_all2; lia). rewrite Efn.
+        assert (Eml : mask_last hb (n - 1) (cmask o) = hb).
+        { rewrite mask_last_spec. destruct (nth_error hb (n - 1)) eqn:En; [|reflexivity].
+          assert (nth_error hb (n - 1) <> None) by congruence. apply nth_error_Some in H. lia. }
+        rewrite Eml. destruct (negb (o =? 0));
+          (eapply memcmp_avail_bits_decided; [exact Fhb | exact Fenc | exact Bhb2 | exact Benc]).
+Qed.
+
+(* ====================================================================== *)
+(* O. locateBoundaryBuckets: the three binary searches over an abstract     *)
+(*    classification of the bucket numbers (port of PFCPrefixProofs.BoundarySearch) *)
+(* ====================================================================== *)
+Section HBoundarySearch.
+  Variables (d : htfc) (enc : list N) (o : N) (m : N) (cl : N -> comparison).
+  Hypothesis Hm : h_buckets d = m.
+  Hypothesis Hm32 : m + 1 < 2 ^ 32.
+  Hypothesis Hcmp : forall k, 1 <= k -> k <= m -> hdr_memcmp_masked d k enc o = Some (cl k).
+  Hypothesis HLt : forall j k, 1 <= j -> j < k -> k <= m -> cl k = Lt -> cl j = Lt.
+  Hypothesis HGt : forall j k, 1 <= j -> j < k -> k <= m -> cl j = Gt -> cl k = Gt.
+
+  (* between two Eq everything is Eq *)
+  Lemma hcl_between i j k : 1 <= i -> i <= j -> j <= k -> k <= m -> cl i = Eq -> cl k = Eq -> cl j = Eq.
+  Proof.
+    intros H1 H2 H3 H4 Ei Ek.
+    destruct (N.eq_dec i j) as [<-|N1]; [exact Ei|]. destruct (N.eq_dec j k) as [->|N2]; [exact Ek|].
+    destruct (cl j) eqn:Ej; [reflexivity| |].
+    - rewrite (HLt i j ltac:(lia) ltac:(lia) ltac:(lia) Ej) in Ei. discriminate.
+    - rewrite (HGt j k ltac:(lia) ltac:(lia) ltac:(lia) Ej) in Ek. discriminate.
+  Qed.
+
+  Definition hmain_post (r : N * N * N * comparison) : Prop :=
+    let '(l', r', c', cmp') := r in
+    match cmp' with
+    | Eq => 1 <= l' /\ l' <= c' /\ c' <= r' /\ r' <= m /\ cl c' = Eq /\
+            (forall j, 1 <= j -> j < l' -> cl j = Lt) /\ (forall j, r' < j -> j <= m -> cl j = Gt)
+    | Lt => c' <= m /\ (forall j, 1 <= j -> j <= c' -> cl j = Lt) /\ (forall j, c' < j -> j <= m -> cl j = Gt)
+    | Gt => 1 <= c' /\ c' - 1 <= m /\
+            (forall j, 1 <= j -> j <= c' - 1 -> cl j = Lt) /\ (forall j, c' - 1 < j -> j <= m -> cl j = Gt)
+    end.
+
+  Lemma hlbb_main_spec : forall fuel l r center cmp,
+    1 <= l -> r <= m -> l <= r + 1 -> (N.to_nat (r + 1 - l) < fuel)%nat ->
+    (forall j, 1 <= j -> j < l -> cl j = Lt) ->
+    (forall j, r < j -> j <= m -> cl j = Gt) ->
+    (r < l -> (cmp = Lt /\ center = r) \/ (cmp = Gt /\ center = r + 1)) ->
+    exists res, hlbb_main fuel d enc o l r center cmp = Some res /\ hmain_post res.
+  Proof.
+    induction fuel as [|f IH]; intros l r center cmp Hl Hr Hlr Hfuel Hlo Hhi Hexit; [lia|].
+    cbn [hlbb_main]. destruct (N.leb_spec l r) as [Hle|Hgt].
+    - set (c := (l + r) / 2).
+      assert (Hc : l <= c <= r) by (unfold c; lia).
+      rewrite (Hcmp c ltac:(lia) ltac:(lia)).
+      destruct (cl c) eqn:Ec.
+      + eexists. split; [reflexivity|]. cbn. repeat split; auto; lia.
+      + apply IH; try lia.
+        * intros j Hj1 Hj2. destruct (N.eq_dec j c) as [->|Hne]; [exact Ec|].
+          apply (HLt j c); auto; lia.
+        * intros j Hj1 Hj2. apply Hhi; lia.
+        * intros Hx. left. split; [reflexivity|lia].
+      + apply IH; try lia.
+        * intros j Hj1 Hj2. apply Hlo; lia.
+        * intros j Hj1 Hj2. destruct (N.eq_dec j c) as [->|Hne]; [exact Ec|].
+          apply (HGt c j); auto; lia.
+        * intros Hx. right. split; [reflexivity|lia].
+    - eexists. split; [reflexivity|]. cbn.
+      destruct (Hexit Hgt) as [[-> ->]|[-> ->]].
+      + repeat split; auto. intros j Hj1 Hj2. apply Hlo; lia.
+      + rewrite N.add_sub. repeat split; auto; try lia. intros j Hj1 Hj2. apply Hlo; lia.
+  Qed.
+
+  (* left boundary: c is a bucket of class Eq *)
+  Lemma hlbb_left_spec c : c <= m -> cl c = Eq -> forall fuel ll lr,
+    1 <= ll -> ll <= lr + 1 -> lr < c -> (N.to_nat (lr + 1 - ll) < fuel)%nat ->
+    (forall j, 1 <= j -> j < ll -> cl j = Lt) ->
+    (forall j, lr < j -> j <= c -> cl j = Eq) ->
+    exists res, hlbb_left fuel d enc o ll lr = Some res /\ res < c /\
+      (forall j, 1 <= j -> j <= res -> cl j = Lt) /\ (forall j, res < j -> j <= c -> cl j = Eq).
+  Proof.
+    intros Hcm Ec. induction fuel as [|f IH]; intros ll lr Hl Hlr Hr Hfuel Hlo Hhi; [lia|].
+    cbn [hlbb_left]. destruct (N.leb_spec ll lr) as [Hle|Hgt].
+    - set (lc := (ll + lr) / 2).
+      assert (Hc : ll <= lc <= lr) by (unfold lc; lia).
+      rewrite (Hcmp lc ltac:(lia) ltac:(lia)).
+      assert (Hnotgt : cl lc <> Gt).
+      { intros E. rewrite (HGt lc c ltac:(lia) ltac:(lia) Hcm E) in Ec. discriminate. }
+      assert (HEq : cl lc = Eq -> exists res, hlbb_left f d enc o ll (lc - 1) = Some res /\ res < c /\
+                (forall j, 1 <= j -> j <= res -> cl j = Lt) /\ (forall j, res < j -> j <= c -> cl j = Eq)).
+      { intros E. apply IH; try lia. exact Hlo.
+        intros j Hj1 Hj2. apply (hcl_between lc j c); auto; lia. }
+      assert (HNe : cl lc = Lt -> exists res, hlbb_left f d enc o (lc + 1) lr = Some res /\ res < c /\
+                (forall j, 1 <= j -> j <= res -> cl j = Lt) /\ (forall j, res < j -> j <= c -> cl j = Eq)).
+      { intros E. apply IH; try lia; [|exact Hhi].
+        intros j Hj1 Hj2. destruct (N.eq_dec j lc) as [->|Hne]; [exact E|].
+        apply (HLt j lc); auto; lia. }
+      destruct (cl lc); [apply HEq; reflexivity|apply HNe; reflexivity|congruence].
+    - exists lr. split; [reflexivity|]. split; [exact Hr|]. split.
+      + intros j Hj1 Hj2. apply Hlo; lia.
+      + exact Hhi.
+  Qed.
+
+  (* right boundary *)
+  Lemma hlbb_right_spec : forall fuel rl rr,
+    1 <= rl -> rl < rr -> rr <= m + 1 -> (N.to_nat (rr - rl) < fuel)%nat ->
+    cl rl = Eq -> (forall j, rr <= j -> j <= m -> cl j = Gt) ->
+    exists res, hlbb_right fuel d enc o rl rr = Some res /\ rl <= res /\ res <= m /\ cl res = Eq /\
+      (forall j, res < j -> j <= m -> cl j = Gt).
+  Proof.
+    induction fuel as [|f IH]; intros rl rr Hl Hlr Hr Hfuel Erl Hhi; [lia|].
+    cbn [hlbb_right]. destruct (N.ltb_spec rl (rr - 1)) as [Hlt|Hge].
+    - set (rc := (rl + rr) / 2).
+      assert (Hc : rl < rc < rr) by (unfold rc; lia).
+      rewrite (Hcmp rc ltac:(lia) ltac:(lia)).
+      assert (Hnotlt : cl rc <> Lt).
+      { intros E. rewrite (HLt rl rc ltac:(lia) ltac:(lia) ltac:(lia) E) in Erl. discriminate. }
+      assert (HEq : cl rc = Eq -> exists res, hlbb_right f d enc o rc rr = Some res /\ rl <= res /\ res <= m /\
+                cl res = Eq /\ (forall j, res < j -> j <= m -> cl j = Gt)).
+      { intros E. destruct (IH rc rr ltac:(lia) ltac:(lia) Hr ltac:(lia) E Hhi) as (res & H1 & H2 & H3).
+        exists res. split; [exact H1|]. split; [lia|exact H3]. }
+      assert (HNe : cl rc = Gt -> exists res, hlbb_right f d enc o rl rc = Some res /\ rl <= res /\ res <= m /\
+                cl res = Eq /\ (forall j, res < j -> j <= m -> cl j = Gt)).
+      { intros E. apply IH; try lia; [exact Erl|].
+        intros j Hj1 Hj2. destruct (N.eq_dec j rc) as [->|Hne]; [exact E|].
+        apply (HGt rc j); auto; lia. }
+      destruct (cl rc); [apply HEq; reflexivity|congruence|apply HNe; reflexivity].
+    - exists rl. split; [reflexivity|]. repeat split; auto; try lia.
+      intros j Hj1 Hj2. apply Hhi; lia.
+  Qed.
+
+  (* the outcome: either some header has the prefix (fE .. lE are exactly the buckets whose
+     header has it; left = the bucket before fE, or 1; right = lE), or none has and
+     left = right = the last bucket whose header is below p (0 if none) *)
+  Definition hlbb_post (L R : N) : Prop :=
+    (exists fE lE, 1 <= fE /\ fE <= lE /\ lE <= m /\
+       (forall j, 1 <= j -> j < fE -> cl j = Lt) /\ (forall j, fE <= j -> j <= lE -> cl j = Eq) /\
+       (forall j, lE < j -> j <= m -> cl j = Gt) /\
+       L = (if fE =? 1 then 1 else fE - 1) /\ R = lE) \/
+    (L = R /\ R <= m /\ (forall j, 1 <= j -> j <= R -> cl j = Lt) /\ (forall j, R < j -> j <= m -> cl j = Gt)).
+
+  Theorem hlocate_boundary_buckets_abs : 1 <= m ->
+    exists L R, hlocate_boundary_buckets d enc o = Some (L, R) /\ hlbb_post L R.
+  Proof.
+    intros Hm1. unfold hlocate_boundary_buckets. rewrite Hm.
+    destruct (hlbb_main_spec (Datatypes.S (Datatypes.S (N.to_nat m))) 1 m 0 Eq) as ([[[l r] c] cmp] & Em & Hpost);
+      try lia.
+    rewrite Em. unfold hmain_post in Hpost. destruct cmp.
+    - destruct Hpost as (H1 & H2 & H3 & H4 & Ec & Hlo & Hhi).
+      (* left boundary *)
+      assert (HLeft : exists lb fE, (if 1 <? c then
+                 match hlbb_left (Datatypes.S (Datatypes.S (N.to_nat m))) d enc o (W32m l) (c - 1) with
+                 | None => None | Some lr => Some (if 0 <? lr then lr else 1) end
+               else Some l) = Some lb /\ 1 <= fE /\ fE <= c /\
+               (forall j, 1 <= j -> j < fE -> cl j = Lt) /\ (forall j, fE <= j -> j <= c -> cl j = Eq) /\
+               lb = (if fE =? 1 then 1 else fE - 1)).
+      { destruct (N.ltb_spec 1 c) as [Hc1|Hc1].
+        - rewrite (W32m_small l) by lia.
+          destruct (hlbb_left_spec c ltac:(lia) Ec (Datatypes.S (Datatypes.S (N.to_nat m))) l (c - 1))
+            as (res & Er & Hres & Hl1 & Hl2); try lia; auto.
+          { intros j Hj1 Hj2. assert (j = c) by lia. subst j. exact Ec. }
+          rewrite Er. eexists. exists (res + 1). split; [reflexivity|].
+          split; [lia|]. split; [lia|]. split; [intros j Hj1 Hj2; apply Hl1; lia|].
+          split; [intros j Hj1 Hj2; apply Hl2; lia|].
+          destruct (N.ltb_spec 0 res); destruct (N.eqb_spec (res + 1) 1); lia.
+        - eexists. exists 1. split; [reflexivity|]. assert (c = 1) by lia. assert (l = 1) by lia. subst c l.
+          split; [lia|]. split; [lia|]. split; [intros; lia|].
+          split; [intros j Hj1 Hj2; assert (j = 1) by lia; subst j; exact Ec|reflexivity]. }
+      assert (HRight : exists lE, (if c <? m then hlbb_right (Datatypes.S (Datatypes.S (N.to_nat m))) d enc o c (W32m (r + 1))
+                                   else Some r) = Some lE /\ c <= lE /\ lE <= m /\ cl lE = Eq /\
+                                  (forall j, lE < j -> j <= m -> cl j = Gt)).
+      { destruct (N.ltb_spec c m) as [Hcm|Hcm].
+        - rewrite (W32m_small (r + 1)) by lia. apply hlbb_right_spec; try lia; auto. intros j Hj1 Hj2. apply Hhi; lia.
+        - exists r. split; [reflexivity|]. assert (c = m) by lia. assert (r = m) by lia. subst c r.
+          repeat split; auto; try lia. }
+      destruct HLeft as (lb & fE & El & Hf1 & Hf2 & Hf3 & Hf4 & Hlb).
+      destruct HRight as (lE & Er & Hr1 & Hr2 & Hr3 & Hr4).
+      rewrite El, Er. exists lb, lE. split; [reflexivity|]. left. exists fE, lE.
+      repeat split; auto; try lia.
+      intros j Hj1 Hj2. destruct (N.le_gt_cases j c) as [Hjc|Hjc]; [apply Hf4; assumption|].
+      apply (hcl_between c j lE); auto; lia.
+    - destruct Hpost as (H1 & H2 & H3). exists c, c. split; [reflexivity|]. right. repeat split; auto.
+    - destruct Hpost as (H1 & H2 & H3 & H4). exists (c - 1), (c - 1). split; [reflexivity|]. right.
+      repeat split; auto.
+  Qed.
+End HBoundarySearch.
+
+(* ====================================================================== *)
+(* P. locatePrefix on a certified object                                   *)
+(* ====================================================================== *)
+Section Prefix.
+  Variables (d : htfc) (b : N) (S : list str) (St : N -> bst * ast).
+  Hypothesis Hbs : h_bsize d = b.
+  Hypothesis Hb2 : 2 <= b.
+  Hypothesis Hb32 : b < 2 ^ 32.
+  Hypothesis Hel : h_elements d = lenN S.
+  Hypothesis Hn32 : lenN S < 2 ^ 32.
+  Hypothesis Hbk : h_buckets d = (lenN S + b - 1) / b.
+  Hypothesis Hcode : code_ok (h_cw d).
+  Hypothesis Htext : Forall (fun x => x < 256) (h_text d).
+  Hypothesis HSt : hstream_ok d b S St.
+  Hypothesis Hnf : Forall nul_free S.
+  Hypothesis Hsort : sorted_lt S.
+  Hypothesis Hne : S <> [].
+
+  Let Hdstep i : i + 1 < lenN S -> (i + 1) mod b <> 0 ->
+    decode_string d (str_cap d) (fst (St i)) (snd (St i)) =
+    Some (fst (St (i + 1)), snd (St (i + 1)), lcp (snth S i) (snth S (i + 1))).
+  Proof. apply (hstream_dstep d b S St HSt). Qed.
+
+  Let Hholds i : i < lenN S -> holds (snd (St i)) (snth S i).
+  Proof. apply (hs_holds d b S St HSt). Qed.
+
+  Let Hnfi i : i < lenN S -> nul_free (snth S i).
+  Proof. apply (hs_nul_free S Hnf). Qed.
+
+  Let Hslt i j : i < j -> j < lenN S -> lex_lt (snth S i) (snth S j).
+  Proof. apply (hs_lt S Hsort). Qed.
+
+  Let Hbiff k : 1 <= k -> (k <= h_buckets d <-> (k - 1) * b < lenN S).
+  Proof. apply (hbuckets_iff d b S); assumption. Qed.
+
+  Let Hbpos : 1 <= h_buckets d.
+  Proof. apply (hbuckets_pos d b S St); assumption. Qed.
+
+  Let Hmod base i : base mod b = 0 -> base <= i -> i + 1 < base + b -> (i + 1) mod b <> 0.
+  Proof. apply (hin_bucket_mod d b S); assumption. Qed.
+
+  Let Hfacts k : 1 <= k -> k <= h_buckets d ->
+    exists base Eb st0, base = (k - 1) * b /\ base mod b = 0 /\ base < Eb /\ Eb <= base + b /\ Eb <= lenN S /\
+      hscanneable d k = Eb - base /\
+      decode_header d k = Some st0 /\ reset_scan d k st0 = Some (St base) /\ holds (snd st0) (snth S base) /\
+      (Eb < lenN S -> Eb = base + b /\ k + 1 <= h_buckets d) /\
+      (k < h_buckets d -> Eb = base + b /\ Eb < lenN S).
+  Proof. apply (hbucket_facts d b S St); assumption. Qed.
+
+  (* the comparison of searchPrefix on the state after string i *)
+  Lemma hcmp0_stream i p sh : i < lenN S -> nul_free p -> sh <= lcp (snth S i) p ->
+    exists z, hcmp_from (snd (St i)) p sh 0 = Some (z, lcp (snth S i) p) /\
+      (lcp (snth S i) p < lenN p ->
+       ((0 < z)%Z /\ lex_compare (snth S i) p = Gt) \/ ((z <= 0)%Z /\ lex_compare (snth S i) p = Lt)).
+  Proof.
+    intros Hi Hnp Hs. pose proof (LexLemmas.lcp_le_l (snth S i) p).
+    rewrite (hcmp_from_cmp_from _ (snth S i) p sh 0 (Hholds i Hi)) by lia.
+    apply cmp_from0_spec; [apply Hnfi; exact Hi|exact Hnp|exact Hs].
+  Qed.
+
+  Section PrefixScan.
+    Variable p : str.
+    Hypothesis Hnp : nul_free p.
+    Variables (base Eb : N).
+    Hypothesis Hbase : base mod b = 0.
+    Hypothesis HE1 : Eb <= base + b.
+    Hypothesis HE2 : Eb <= lenN S.
+
+    Let nomatch (j : N) : Prop := Spec.is_prefix p (snth S j) = false.
+
+    Lemma hsearch_prefix_spec : forall (n : nat) i fuel s,
+      base <= i -> i < Eb -> N.to_nat (Eb - 1 - i) = n -> (n < fuel)%nat ->
+      s <= lcp (snth S i) p ->
+      (forall j, base <= j -> j < i -> nomatch j) ->
+      exists r b' a',
+        hsearch_prefix fuel d p (Eb - base) (fst (St i)) (snd (St i)) s (i - base + 1) = Some (r, b', a') /\
+        ((r = 0 /\ forall j, base <= j -> j < Eb -> nomatch j) \/
+         (exists j, i <= j /\ j < Eb /\ r = j - base + 1 /\ (b', a') = St j /\
+                    Spec.is_prefix p (snth S j) = true /\ forall j', base <= j' -> j' < j -> nomatch j')).
+    Proof.
+      induction n as [|n IH]; intros i fuel s Hi1 Hi2 Hn Hf Hs Hprev;
+        (destruct fuel as [|f]; [lia|]); cbn [hsearch_prefix].
+      all: pose proof (LexLemmas.lcp_le_l (snth S i) p) as Hl1;
+           pose proof (LexLemmas.lcp_le_r (snth S i) p) as Hl2.
+      all: destruct (hcmp0_stream i p s ltac:(lia) Hnp Hs) as (z & Ec & Hsgn); rewrite Ec.
+      all: destruct (N.eqb_spec (lcp (snth S i) p) (lenN p)) as [Efound|Enf].
+      1,3: (eexists _, _, _; split; [reflexivity|]; right; exists i;
+            repeat split; auto; try lia; [destruct (St i); reflexivity|apply is_prefix_lcp'; exact Efound]).
+      all: assert (Hnm : nomatch i)
+             by (unfold nomatch; destruct (Spec.is_prefix p (snth S i)) eqn:Ei; [apply is_prefix_lcp' in Ei; contradiction|reflexivity]).
+      all: specialize (Hsgn ltac:(lia)).
+      - assert (Hor : ((0 <? z)%Z || (i - base + 1 =? Eb - base)) = true).
+        { destruct (N.eqb_spec (i - base + 1) (Eb - base)); [apply orb_true_r|lia]. }
+        rewrite Hor. eexists _, _, _; split; [reflexivity|]. left. split; [reflexivity|].
+        intros j Hj1 Hj2. destruct (N.eq_dec j i) as [->|Hne']; [exact Hnm|apply Hprev; lia].
+      - destruct (Z.ltb_spec 0 z) as [Hz|Hz]; cbn [orb].
+        + destruct Hsgn as [[_ Hgt]|[Hz' _]]; [|lia].
+          eexists _, _, _; split; [reflexivity|]. left. split; [reflexivity|].
+          intros j Hj1 Hj2. destruct (N.lt_ge_cases j i) as [Hlt|Hge]; [apply Hprev; assumption|].
+          apply (nomatch_after S p i j Hsort Hge ltac:(lia)).
+          unfold pcls. unfold nomatch in Hnm. rewrite Hnm. exact Hgt.
+        + destruct Hsgn as [[Hz' _]|[_ Hlt]]; [lia|].
+          destruct (N.eqb_spec (i - base + 1) (Eb - base)); [lia|].
+          assert (Hi3 : i + 1 < Eb) by lia.
+          rewrite (Hdstep i ltac:(lia) (Hmod base i Hbase Hi1 ltac:(lia))).
+          assert (Hii : lex_lt (snth S i) (snth S (i + 1))) by (apply Hslt; lia).
+          destruct (N.ltb_spec (lcp (snth S i) (snth S (i + 1))) (lcp (snth S i) p)) as [Hsh|Hsh].
+          * eexists _, _, _; split; [reflexivity|]. left. split; [reflexivity|].
+            intros j Hj1 Hj2. destruct (N.lt_ge_cases j i) as [Hlti|Hge]; [apply Hprev; assumption|].
+            destruct (N.eq_dec j i) as [->|Hne']; [exact Hnm|].
+            apply (nomatch_after S p (i + 1) j Hsort ltac:(lia) ltac:(lia)).
+            assert (Hnm1 : Spec.is_prefix p (snth S (i + 1)) = false).
+            { destruct (Spec.is_prefix p (snth S (i + 1))) eqn:E1; [|reflexivity].
+              apply is_prefix_lcp in E1.
+              pose proof (lcp_min p (snth S i) (snth S (i + 1))) as Hmin.
+              rewrite (lcp_comm p (snth S i)) in Hmin. lia. }
+            unfold pcls. rewrite Hnm1. apply lex_gt_lt.
+            apply (scan_trick_lt (snth S i) p (snth S (i + 1)) Hlt Hii Hsh).
+          * destruct (IH (i + 1) f (lcp (snth S i) p) ltac:(lia) Hi3 ltac:(lia) ltac:(lia)) as (r & b' & a' & Er & Hr).
+            { pose proof (lcp_min (snth S i) (snth S (i + 1)) p). lia. }
+            { intros j Hj1 Hj2. destruct (N.eq_dec j i) as [->|Hne']; [exact Hnm|apply Hprev; lia]. }
+            replace (i - base + 1 + 1) with (i + 1 - base + 1) by lia.
+            rewrite Er.
+            exists r, b', a'. split; [reflexivity|].
+            destruct Hr as [Hr|(j & Hj1 & Hj2 & Hr)]; [left; exact Hr|].
+            right. exists j. split; [lia|]. split; [exact Hj2|exact Hr].
+    Qed.
+
+    Lemma hsearch_distinct_spec : forall (n : nat) j fuel id sc,
+      base <= j -> j < Eb -> N.to_nat (Eb - 1 - j) = n -> (n < fuel)%nat ->
+      sc + j + 1 = Eb + id -> 1 <= id ->
+      Spec.is_prefix p (snth S j) = true ->
+      exists j', j <= j' /\ j' < Eb /\
+        hsearch_distinct fuel d (lenN p) sc (fst (St j)) (snd (St j)) id = Some (id + (j' - j)) /\
+        Spec.is_prefix p (snth S j') = true /\ (j' + 1 < Eb -> nomatch (j' + 1)).
+    Proof.
+      induction n as [|n IH]; intros j fuel id sc Hj1 Hj2 Hn Hf Hsc Hid Hm;
+        (destruct fuel as [|f]; [lia|]); cbn [hsearch_distinct].
+      - destruct (N.ltb_spec id sc); [lia|].
+        exists j. repeat split; auto; try lia. f_equal. lia.
+      - destruct (N.ltb_spec id sc); [|lia].
+        assert (Hj3 : j + 1 < Eb) by lia.
+        rewrite (Hdstep j ltac:(lia) (Hmod base j Hbase Hj1 ltac:(lia))).
+        pose proof (prefix_next p (snth S j) (snth S (j + 1)) Hm) as Hnext.
+        destruct (N.ltb_spec (lcp (snth S j) (snth S (j + 1))) (lenN p)) as [Hsh|Hsh].
+        + exists j. repeat split; auto; try lia; [f_equal; lia|].
+          intros _. unfold nomatch. destruct (Spec.is_prefix p (snth S (j + 1))); [|reflexivity].
+          pose proof (proj1 Hnext eq_refl). lia.
+        + destruct (IH (j + 1) f (id + 1) sc ltac:(lia) Hj3 ltac:(lia) ltac:(lia) ltac:(lia) ltac:(lia)
+                      (proj2 Hnext Hsh)) as (j' & H1 & H2 & Er & H3 & H4).
+          exists j'. split; [lia|]. split; [exact H2|]. split; [rewrite Er; f_equal; lia|]. split; assumption.
+    Qed.
+  End PrefixScan.
+
+  Let H (k : N) : str := snth S ((k - 1) * b).
+
+  (* the masked memcmp of locateBoundaryBuckets against the header of bucket k *)
+  Lemma hdr_memcmp_masked_stream k p enc o : 1 <= k -> k <= h_buckets d -> nul_free p ->
+    pack_string (h_cw d) p = Some (enc, o) ->
+    hdr_memcmp_masked d k enc o = Some (pcls p (H k)).
+  Proof.
+    intros Hk1 Hk2 Hp Pp.
+    destruct (hstream_header d b S St Hbs Hb2 Hb32 Hel Hn32 Hbk HSt k Hk1 Hk2)
+      as (off & ench & oh & rest & st0 & Hlt & Ebl & Ep & Hle & Hs & _).
+    destruct Hcode as (_ & CP & CA & CL & _).
+    unfold hdr_memcmp_masked. rewrite rdN_nthN, Ebl. destruct (N.leb_spec off (lenN (h_text d))); [|lia].
+    rewrite Hs.
+    assert (F : Forall (fun x => x < 256) rest).
+    { assert (F0 : Forall (fun x => x < 256) (skipN off (h_text d))).
+      { unfold skipN. apply Forall_forall. intros x Hx. rewrite Forall_forall in Htext. apply Htext.
+        rewrite <- (firstn_skipn (N.to_nat off)). apply in_or_app. right. exact Hx. }
+      rewrite Hs in F0. apply Forall_app in F0. apply F0. }
+    exact (masked_memcmp_pcls (h_cw d) (H k) p ench oh enc o rest CP CA CL (Hnfi _ Hlt) Hp Ep Pp F).
+  Qed.
+
+  Lemma hlbb_spec p enc o : nul_free p -> pack_string (h_cw d) p = Some (enc, o) ->
+    exists L R, hlocate_boundary_buckets d enc o = Some (L, R) /\ hlbb_post (h_buckets d) (hcls b S p) L R.
+  Proof.
+    intros Hnp Pp.
+    assert (Hidx : forall k, 1 <= k -> k <= h_buckets d -> (k - 1) * b < lenN S).
+    { intros k H1 H2. apply (Hbiff k); lia. }
+    apply (hlocate_boundary_buckets_abs d enc o (h_buckets d) (hcls b S p) eq_refl).
+    - (* buckets + 1 < 2^32 *)
+      assert (Hb0 : b <> 0) by lia.
+      assert (E32 : 2 ^ 32 = 4294967296) by reflexivity. rewrite E32 in *.
+      assert (H1 : (lenN S + b - 1) / b <= (lenN S + 1 * b) / b) by (apply N.div_le_mono; lia).
+      rewrite N.div_add in H1 by lia.
+      assert (H2 : lenN S / b <= lenN S / 2) by (apply N.div_le_compat_l; lia).
+      rewrite Hbk. lia.
+    - intros k H1 H2. apply (hdr_memcmp_masked_stream k p enc o H1 H2 Hnp Pp).
+    - intros j k H1 H2 H3 Hc. unfold hcls in *.
+      apply (cls_before S p ((k - 1) * b) ((j - 1) * b) Hsort);
+        [apply N.mul_le_mono_r; lia|apply Hidx; lia|exact Hc].
+    - intros j k H1 H2 H3 Hc. unfold hcls in *.
+      apply (cls_after S p ((j - 1) * b) ((k - 1) * b) Hsort);
+        [apply N.mul_le_mono_r; lia|apply Hidx; lia|exact Hc].
+    - exact Hbpos.
+  Qed.
+
+  Section Glue.
+    Variable p : str.
+    Hypothesis Hnp : nul_free p.
+    Variables (enc : list N) (o : N).
+    Hypothesis Hes : encode_string d p = Some (enc, o).
+
+    Lemma hsame_bucket_case k : 1 <= k -> k <= h_buckets d ->
+      hlocate_boundary_buckets d enc o = Some (k, k) ->
+      (forall j, j < (k - 1) * b -> Spec.is_prefix p (snth S j) = false) ->
+      (k * b < lenN S -> pcls p (snth S (k * b)) = Gt) ->
+      htfc_locate_prefix d p = Some (range_of (spec_prefix_ids S p)).
+    Proof.
+      intros Hk1 Hk2 Elbb Hbefore Hafter.
+      unfold htfc_locate_prefix. rewrite Hes, Elbb, Hbs.
+      destruct (N.ltb_spec 0 k); [|lia]. rewrite N.eqb_refl.
+      rewrite (mul_pred_succ k b Hk1) in Hafter.
+      destruct (Hfacts k Hk1 Hk2) as (base & Eb & st0 & Eb' & Hmod0 & HbE & HE1 & HE2 & Esc & Edh & Ers & _ & Hnext & _).
+      rewrite <- Eb' in *. clear Eb'.
+      rewrite Edh. cbn [opt_bind]. rewrite Ers, Esc.
+      destruct (St base) as [bb0 aa0] eqn:Est0.
+      destruct (hsearch_prefix_spec p Hnp base Eb Hmod0 HE1 HE2
+                  (N.to_nat (Eb - 1 - base)) base (Datatypes.S (Datatypes.S (N.to_nat (Eb - base)))) 0)
+        as (r & b' & a' & Esp & Hsp); try lia.
+      replace (base - base + 1) with 1 in Esp by lia. rewrite Est0 in Esp. cbn [fst snd] in Esp. rewrite Esp.
+      destruct Hsp as [[-> Hnone]|(j & Hj1 & Hj2 & -> & Est & Hmj & Hprev)].
+      - cbn [N.eqb]. f_equal. symmetry. apply none_cert.
+        intros j Hj. destruct (N.lt_ge_cases j base) as [H1|H1]; [apply Hbefore; exact H1|].
+        destruct (N.lt_ge_cases j Eb) as [H2|H2]; [apply Hnone; assumption|].
+        destruct (Hnext ltac:(lia)) as [EE _]. subst Eb.
+        apply (nomatch_after S p (base + b) j Hsort H2 Hj). apply Hafter. lia.
+      - destruct (N.eqb_spec (j - base + 1) 0); [lia|].
+        assert (E32 : 2 ^ 32 = 4294967296) by reflexivity.
+        destruct (hsearch_distinct_spec p base Eb Hmod0 HE1 HE2
+                    (N.to_nat (Eb - 1 - j)) j (Datatypes.S (Datatypes.S (N.to_nat (Eb - base)))) 1
+                    (Eb - base - (j - base + 1) + 1)) as (j' & H1 & H2 & Esd & Hmj' & Hnj'); try lia; auto.
+        assert (Ew : W32m (Eb - base + 2 ^ 32 - (j - base + 1) + 1) = Eb - base - (j - base + 1) + 1).
+        { unfold W32m. replace (Eb - base + 2 ^ 32 - (j - base + 1) + 1) with (Eb - base - (j - base + 1) + 1 + 1 * 2 ^ 32) by lia.
+          rewrite N.mod_add by lia. apply N.mod_small. rewrite E32 in *. lia. }
+        rewrite Ew. rewrite <- Est in Esd. cbn [fst snd] in Esd. rewrite Esd. f_equal.
+        rewrite (range_cert S p j j' Hsort H1 ltac:(lia) Hmj Hmj').
+        + f_equal; lia.
+        + destruct (N.eq_dec j base) as [->|Hne'].
+          * destruct (N.eq_dec base 0) as [->|Hb0]; [left; reflexivity|].
+            right. apply Hbefore. lia.
+          * right. apply Hprev; lia.
+        + destruct (N.lt_ge_cases (j' + 1) Eb) as [H3|H3]; [right; apply Hnj'; exact H3|].
+          assert (j' + 1 = Eb) by lia.
+          destruct (N.eq_dec Eb (lenN S)) as [EE|NE]; [left; lia|].
+          destruct (Hnext ltac:(lia)) as [EE _]. right.
+          replace (j' + 1) with (base + b) by lia.
+          apply (nomatch_after S p (base + b) (base + b) Hsort); [lia|lia|apply Hafter; lia].
+    Qed.
+  
+    Lemma htwo_bucket_case L R : 1 <= L -> L < R -> R <= h_buckets d ->
+      hlocate_boundary_buckets d enc o = Some (L, R) ->
+      (L = 1 \/ hcls b S p L = Lt) ->
+      hcls b S p (L + 1) = Eq -> hcls b S p R = Eq ->
+      (R + 1 <= h_buckets d -> hcls b S p (R + 1) = Gt) ->
+      htfc_locate_prefix d p = Some (range_of (spec_prefix_ids S p)).
+    Proof.
+      intros HL1 HLR HRm Elbb HcL HcL1 HcR HcR1.
+      unfold htfc_locate_prefix. rewrite Hes, Elbb, Hbs.
+      destruct (N.ltb_spec 0 L); [|lia]. destruct (N.eqb_spec L R); [lia|].
+      unfold hcls in *. rewrite N.add_sub in HcL1, HcR1.
+      apply pcls_Eq in HcL1, HcR.
+      assert (HLb : L * b = (L - 1) * b + b) by (apply mul_pred_succ; lia).
+      assert (HLRb : L * b <= (R - 1) * b) by (apply N.mul_le_mono_r; lia).
+      assert (HRb : R * b = (R - 1) * b + b) by (apply mul_pred_succ; lia).
+      destruct (Hfacts L ltac:(lia) ltac:(lia)) as (baseL & EL & st0L & EbL & HmodL & HbEL & HEL1 & HEL2 & EscL & EdhL & ErsL & _ & _ & HfullL).
+      destruct (Hfacts R ltac:(lia) ltac:(lia)) as (baseR & ER & st0R & EbR & HmodR & HbER & HER1 & HER2 & EscR & EdhR & ErsR & _ & HnextR & _).
+      destruct (HfullL ltac:(lia)) as [EEL HELn].
+      assert (HbL0 : L = 1 -> baseL = 0) by (intros ->; rewrite EbL; reflexivity).
+      rewrite <- EbL in *. rewrite <- EbR in *. clear EbL EbR.
+      revert HcL1 HcR1 HLb HLRb HRb. generalize (L * b). generalize (R * b). intros Rb Lb HcL1 HcR1 HLb HLRb HRb.
+      subst Lb Rb EL.
+      rewrite EdhL. cbn [opt_bind]. rewrite ErsL, EscL.
+      destruct (St baseL) as [bbL aaL] eqn:EstL.
+      destruct (hsearch_prefix_spec p Hnp baseL (baseL + b) HmodL HEL1 HEL2
+                  (N.to_nat (baseL + b - 1 - baseL)) baseL (Datatypes.S (Datatypes.S (N.to_nat (baseL + b - baseL)))) 0)
+        as (r & b' & a' & Esp & Hsp); try lia.
+      replace (baseL - baseL + 1) with 1 in Esp by lia. rewrite EstL in Esp. cbn [fst snd] in Esp. rewrite Esp.
+      rewrite EdhR. cbn [opt_bind]. rewrite ErsR, EscR.
+      destruct (St baseR) as [bbR aaR] eqn:EstR.
+      destruct (hsearch_distinct_spec p baseR ER HmodR HER1 HER2
+                  (N.to_nat (ER - 1 - baseR)) baseR (Datatypes.S (Datatypes.S (N.to_nat (ER - baseR)))) 1
+                  (ER - baseR)) as (j' & H1 & H2 & Esd & Hmj' & Hnj'); try lia; auto.
+      rewrite EstR in Esd. cbn [fst snd] in Esd. rewrite Esd. f_equal.
+      clear HmodL HmodR EdhL EdhR ErsL ErsR EscL EscR Esp Esd Elbb.
+      assert (Hhi : j' + 1 = lenN S \/ Spec.is_prefix p (snth S (j' + 1)) = false).
+      { destruct (N.lt_ge_cases (j' + 1) ER) as [H3|H3]; [right; apply Hnj'; exact H3|].
+        assert (j' + 1 = ER) by lia.
+        destruct (N.eq_dec ER (lenN S)) as [EE|NE]; [left; lia|].
+        destruct (HnextR ltac:(lia)) as [EE HR1]. right.
+        replace (j' + 1) with (baseR + b) by lia.
+        apply (nomatch_after S p (baseR + b) (baseR + b) Hsort); [lia|lia|apply HcR1; exact HR1]. }
+      destruct Hsp as [[-> Hnone]|(j & Hj1 & Hj2 & -> & Est & Hmj & Hprev)].
+      - cbn [N.eqb].
+        rewrite (range_cert S p (baseL + b) j' Hsort ltac:(lia) ltac:(lia) HcL1 Hmj').
+        + f_equal; lia.
+        + right. apply Hnone; lia.
+        + exact Hhi.
+      - destruct (N.eqb_spec (j - baseL + 1) 0); [lia|].
+        rewrite (range_cert S p j j' Hsort ltac:(lia) ltac:(lia) Hmj Hmj').
+        + f_equal; lia.
+        + destruct (N.eq_dec j baseL) as [->|Hne']; [|right; apply Hprev; lia].
+          destruct HcL as [HcL|HcL].
+          * left. apply HbL0. exact HcL.
+          * apply pcls_Lt in HcL. destruct HcL as [HcL _]. congruence.
+        + exact Hhi.
+    Qed.
+
+    Theorem htfc_locate_prefix_stream : pack_string (h_cw d) p = Some (enc, o) ->
+      htfc_locate_prefix d p = Some (range_of (spec_prefix_ids S p)).
+    Proof.
+      intros Pp.
+      pose proof Hbpos as Hm1.
+      assert (Hidx : forall k, 1 <= k -> k <= h_buckets d -> (k - 1) * b < lenN S).
+      { intros k H1 H2. apply (Hbiff k); lia. }
+      pose proof (hlbb_spec p enc o Hnp Pp) as Hlbb.
+      destruct Hlbb as (L & R & Elbb & [(fE & lE & Hf1 & Hf2 & Hf3 & HcLt & HcEq & HcGt & -> & ->)|(-> & HRm & HcLt & HcGt)]).
+      - destruct (N.eqb_spec fE 1) as [->|Hf].
+        + destruct (N.eq_dec lE 1) as [->|Hl].
+          * apply (hsame_bucket_case 1); [lia|exact Hm1|exact Elbb|intros j Hj; lia|].
+            intros Hn. rewrite N.mul_1_l in *.
+            assert (H2 : 2 <= h_buckets d)
+              by (apply (Hbiff 2); [lia|]; replace ((2 - 1) * b) with b by lia; exact Hn).
+            pose proof (HcGt 2 ltac:(lia) H2) as Hc. unfold hcls in Hc.
+            replace ((2 - 1) * b) with b in Hc by lia. exact Hc.
+          * apply (htwo_bucket_case 1 lE);
+              [lia|lia|lia|exact Elbb|left; reflexivity|apply HcEq; lia|apply HcEq; lia|intros H'; apply HcGt; lia].
+        + apply (htwo_bucket_case (fE - 1) lE);
+            [lia|lia|lia|exact Elbb|right; apply HcLt; lia| |apply HcEq; lia|intros H'; apply HcGt; lia].
+          replace (fE - 1 + 1) with fE by lia. apply HcEq; lia.
+      - destruct (N.eq_dec R 0) as [->|HR0].
+        + unfold htfc_locate_prefix. rewrite Hes, Elbb. cbn [N.ltb N.compare]. f_equal. symmetry.
+          apply none_cert. intros j Hj.
+          pose proof (HcGt 1 ltac:(lia) Hm1) as Hc. unfold hcls in Hc.
+          replace ((1 - 1) * b) with 0 in Hc by lia.
+          apply (nomatch_after S p 0 j Hsort); auto. lia.
+        + apply (hsame_bucket_case R); auto; try lia.
+          * intros j Hj. pose proof (HcLt R ltac:(lia) ltac:(lia)) as Hc. unfold hcls in Hc.
+            apply (nomatch_before S p ((R - 1) * b) j Hsort); auto; [lia|]. apply Hidx; lia.
+          * intros Hn.
+            assert (H2 : R + 1 <= h_buckets d) by (apply (Hbiff (R + 1)); [lia|]; rewrite N.add_sub; exact Hn).
+            pose proof (HcGt (R + 1) ltac:(lia) H2) as Hc. unfold hcls in Hc.
+            rewrite N.add_sub in Hc. exact Hc.
+    Qed.
+  End Glue.
+End Prefix.
+
+Lemma encode_string_pack_any d p : code_ok (h_cw d) -> Forall (fun x => x < 256) p ->
+  exists enc o, encode_string d p = Some (enc, o) /\ pack_string (h_cw d) p = Some (enc, o).
+Proof.
+  intros Hc Hp. destruct p as [|x p].
+  - exists [], 0. split; reflexivity.
+  - apply (encode_string_pack d (x :: p) Hc Hp). discriminate.
+Qed.
+
+Theorem htfc_locate_prefix_ok d b S : htfc_ok d b S -> S <> [] -> Forall nul_free S -> sorted_lt S ->
+  forall p, nul_free p -> Forall (fun c => c < 256) p ->
+  htfc_locate_prefix d p = Some (range_of (spec_prefix_ids S p)).
+Proof.
+  intros (Hbs & Hb2 & Hb32 & Hel & Hn32 & Hbk & Hk & Hcode & Htext & St & HSt) Hne Hnf Hsort p Hp Hp256.
+  destruct (encode_string_pack_any d p Hcode Hp256) as (enc & o & Ees & Pp).
+  apply (htfc_locate_prefix_stream d b S St Hbs Hb2 Hb32 Hel Hn32 Hbk Hcode Htext HSt Hnf Hsort Hne p Hp enc o Ees Pp).
+Qed.
+
+(* ====================================================================== *)
 (* F. the theorems in the form the harness instantiates                    *)
 (* ====================================================================== *)
 Lemma valid_set_facts S : valid_set S -> S <> [] /\ Forall nul_free S /\ sorted_lt S.
@@ -1747,6 +2586,27 @@ Proof.
   split.
   - intros id. rewrite (htfc_extract_ok d _ S Hok Hne Hnf Hsort id). discriminate.
   - intros q Hq Hq2. rewrite (htfc_locate_ok d _ S Hok Hne Hnf Hsort q Hq Hq2). discriminate.
+Qed.
+
+(* prefix search: the (left, right) limits locatePrefix hands to IteratorDictIDContiguous, and the IDs it enumerates *)
+Theorem htfc_locate_prefix_spec S d : valid_set S -> htfc_check S d = true \/ htfc_check2 S d = true ->
+  forall p, nul_free p -> Forall (fun c => c < 256) p ->
+  htfc_locate_prefix d p = Some (range_of (spec_prefix_ids S p)).
+Proof.
+  intros HV HC. destruct (valid_set_facts S HV) as (Hne & Hnf & Hsort).
+  assert (Hok : htfc_ok d (h_bsize d) S) by (destruct HC; [apply htfc_check_sound|apply htfc_check2_sound]; assumption).
+  exact (htfc_locate_prefix_ok d _ S Hok Hne Hnf Hsort).
+Qed.
+
+Theorem htfc_locate_prefix_ids S d : valid_set S -> htfc_check S d = true \/ htfc_check2 S d = true ->
+  forall p, nul_free p -> Forall (fun c => c < 256) p ->
+  exists r, htfc_locate_prefix d p = Some r /\ contig_ids (fst r) (snd r) = spec_prefix_ids S p.
+Proof.
+  intros HV HC p Hp Hp2. destruct (valid_set_facts S HV) as (Hne & Hnf & Hsort).
+  exists (range_of (spec_prefix_ids S p)). split; [apply (htfc_locate_prefix_spec S d HV HC p Hp Hp2)|].
+  assert (Hok : htfc_ok d (h_bsize d) S) by (destruct HC; [apply htfc_check_sound|apply htfc_check2_sound]; assumption).
+  destruct Hok as (_ & _ & _ & _ & Hn32 & _).
+  apply range_ids_spec; [exact Hsort|]. assert (2 ^ 32 < 2 ^ 64) by (apply N.pow_lt_mono_r; lia). lia.
 Qed.
 
 (* ====================================================================== *)
